@@ -111,11 +111,23 @@ def run(repo):
                          (isinstance(node.value, ast.Name) and ('holds-counter', node.value.id) in state
                           and 'bumped' not in state)):
                 state = (state | {'indexed'}) - {'balanced'}       # an index has been handed out ..
+            if isinstance(node, ast.Assign) and any(ntext(t).endswith('.index') for t in node.targets) and \
+                    'indexed' in state and 'bumped' not in state:
+                # the attribute that has just received the counter's value is another name for it
+                for t in node.targets:
+                    if ntext(t).endswith('.index'):
+                        state = state | {('holds-counter', ntext(t))}
+
+            def old_counter(e):
+                """the value the counter had when the index was handed out"""
+                return is_self_attr(e, 'constr_idx') or \
+                    (isinstance(e, (ast.Name, ast.Attribute)) and ('holds-counter', ntext(e)) in state)
             bump = (isinstance(node, ast.AugAssign) and is_self_attr(node.target, 'constr_idx') and
                     isinstance(node.op, ast.Add)) or \
                    (isinstance(node, ast.Assign) and len(node.targets) == 1 and is_self_attr(node.targets[0], 'constr_idx')
                     and isinstance(node.value, ast.BinOp) and isinstance(node.value.op, ast.Add)
-                    and is_self_attr(node.value.left, 'constr_idx'))
+                    and (old_counter(node.value.left) or old_counter(node.value.right))
+                    and 'bumped' not in state)
             if bump:
                 state = state | {'bumped', 'balanced'}              # .. and the counter has moved on
             return state
@@ -185,6 +197,27 @@ def run(repo):
                     dkeys = sorted(k.arg for k in n.keywords if k.arg)
                 if dkeys is not None:
                     nd += 1
+                    # keys added afterwards to the local that holds the dictionary:  y['upi'] = upi ; y.update(lpi=..)
+                    holder = None
+                    for a_ in walk_no_nested(fi.node):
+                        if isinstance(a_, ast.Assign) and a_.value is n and len(a_.targets) == 1 and \
+                                isinstance(a_.targets[0], ast.Name):
+                            holder = a_.targets[0].id
+                    if holder is not None:
+                        for a_ in walk_no_nested(fi.node):
+                            if isinstance(a_, ast.Assign) and len(a_.targets) == 1 and \
+                                    isinstance(a_.targets[0], ast.Subscript) and ntext(a_.targets[0].value) == holder \
+                                    and isinstance(a_.targets[0].slice, ast.Constant):
+                                dkeys = sorted(set(dkeys) | {a_.targets[0].slice.value})
+                            elif isinstance(a_, ast.Call) and isinstance(a_.func, ast.Attribute) and \
+                                    a_.func.attr == 'update' and ntext(a_.func.value) == holder:
+                                dkeys = sorted(set(dkeys) | {k.arg for k in a_.keywords if k.arg})
+                                for d_ in a_.args:
+                                    if isinstance(d_, ast.Dict):
+                                        dkeys = sorted(set(dkeys) | {k.value for k in d_.keys if isinstance(k, ast.Constant)})
+                                    else:
+                                        raise AnalysisError('%s: the dual dictionary is updated from `%s`'
+                                                            % (fi.fq, ntext(d_)[:40]))
                     keys = dkeys
                     ok = keys == ['lpi', 'pi', 'upi']
                     res.functions.add(fi.fq)
